@@ -93,16 +93,12 @@ class Engine:
 
     def feasible(self, extra):
         self.stats["feas_checks"] += 1
-        s = self._solver
-        s.push()
-        try:
-            s.set("rlimit", 2_000_000)
-            for c in self.run.pc: s.add(c)
-            for c in extra: s.add(c)
-            for c in S.rounding_facts(list(self.run.pc) + list(extra)): s.add(c)
-            r = s.check()
-        finally:
-            s.pop()
+        s = z3.Solver()
+        s.set("rlimit", 2_000_000)
+        fs = list(self.run.pc) + list(extra)
+        for c in fs: s.add(c)
+        for c in S.rounding_facts(fs): s.add(c)
+        r = s.check()
         return r != z3.unsat   # unknown counts as feasible (sound: explores more)
 
     def assume(self, cond):
@@ -121,13 +117,13 @@ class Engine:
         if k < len(run.prefix):
             choice = run.prefix[k]
         else:
-            ft = self.feasible([c]); ff = self.feasible([z3.Not(c)])
+            ft = self.feasible([c])
+            ff = self.feasible([z3.Not(c)]) if ft else True
             if ft and ff:
                 choice = True
                 run.alts.append(run.taken + [False])
             elif ft: choice = True
-            elif ff: choice = False
-            else: raise Abort()
+            else: choice = False      # pc is feasible by construction, so the other branch is
         run.taken.append(choice)
         run.pc.append(c if choice else z3.Not(c))
         return choice
